@@ -20,7 +20,7 @@ impl Typescript {
             Ok(typealias_template(
                 &format_comments(&tld.comments),
                 &to_jer_identifier(&tld.name),
-                &to_jer_identifier(&dec.identifier),
+                &reference_to_tokens(dec),
             ))
         } else {
             Err(GeneratorError::new(
